@@ -386,6 +386,7 @@ def run(ctx):
     ctx.floor("C18-store", "validate-before-store obligations", n_store, 12)
     # other writers of CONFIG fields anywhere else in these crates (who-may-write)
     check_config_writers(ctx, model)
+    check_no_save_before_rejection(ctx, model)
 
 
 def run_thorough(ctx):
@@ -528,3 +529,45 @@ def check_config_writers(ctx, model):
                                                   ("migration" if is_mig else "UNLISTED writer: its stored values bypass the validators")),
                        model.view(p).where(e.block), nontrivial=not is_mig)
     ctx.floor("C18-writers", "CONFIG write sites", n, 12)
+
+
+def check_no_save_before_rejection(ctx, model):
+    """A rejected update changes nothing: in the handlers that validate bounded settings no CONFIG.save precedes a point where
+    the handler can still reject (other than the failure of that save itself). On chain a failing execute is rolled back, but
+    the entry point itself must not rely on that: the same function serves sub-messages with reply_on error handling and
+    non-transactional callers."""
+    handlers = [("fee_collector::commands::update_config", "fee_collector::state::CONFIG"),
+                ("fee_distributor::commands::update_config", "fee_distributor::state::CONFIG"),
+                ("whale_lair::commands::update_config", "whale_lair::state::CONFIG"),
+                ("terraswap_pair::commands::update_config", "terraswap_pair::state::CONFIG"),
+                ("stableswap_3pool::commands::update_config", "stableswap_3pool::state::CONFIG"),
+                ("vault::execute::update_config::update_config", "vault::state::CONFIG")]
+    for p, item in handlers:
+        v = ctx.view(p, "C18-store")
+        if v is None:
+            continue
+        saves = saves_of(v, item)
+        err_blocks = set()
+        for b in v.live_blocks():
+            bb = v.blocks[b]
+            for s_ in bb["s"]:
+                if s_["lhs"]["l"] == 0 and not s_["lhs"]["p"] and s_["rv"]["r"] == "agg" and s_["rv"].get("variant") == "Err":
+                    err_blocks.add(b)
+            t = bb["t"]
+            if t["k"] == "call" and mname(t).endswith("::from_residual") and t["dest"]["l"] == 0:
+                err_blocks.add(b)
+        bad = []
+        for sb, t in saves:
+            own = []
+            for b in sorted(v.live_blocks()):
+                te = try_edges(v, b)
+                if not te:
+                    continue
+                cont, brk, bblock, inner = te
+                if any(o.kind == "call" and o.b == "%s:bb%d" % (v.path, sb) for o in v.origins_of_operand(inner, at=v.at_term(bblock))):
+                    own += brk
+            later = (v.reachable(sb, cut_edges=own) - {sb}) & err_blocks
+            if later:
+                bad.append("after the save at line %s the handler can still reject (lines %s)" % (v.line_of_block(sb), sorted({v.line_of_block(b) for b in later})[:4]))
+        ctx.ob("C18-store", "%s|no-rejection-after-the-config-was-written" % p, bool(saves) and not bad,
+               "; ".join(bad) if bad else "%d CONFIG.save site(s), no rejection reachable afterwards" % len(saves), v.where(saves[0][0]) if saves else v.where())
